@@ -42,6 +42,7 @@ class Pool:
         self.arrays = {}     # key -> list of [obj, original_bytes, phase]
         self.objects = {}
         self.results = []
+        self.keep = []
         self.stats = {"same_object_same_values": 0, "overwritten_in_place": 0, "fresh": 0, "objects_reused": 0,
                       "results_overwritten": 0, "built_as_integer_arrays": 0}
 
@@ -52,12 +53,14 @@ class Pool:
         strided  a non-contiguous view (every other row / element of a larger buffer)
         readonly a write-protected array (a library function never writes into its arguments)
         fortran  column-major memory order"""
-        if self.intmode is None or a.size == 0 or a.dtype == object:
+        if self.intmode is None or a.size == 0 or a.dtype == object or any(a is k for k in self.keep):
             return a
         if self.intmode != "all":
             import zlib
             if zlib.crc32(repr((self.intmode,) + tuple(site[1:])).encode()) % 3 == 0:
                 return a
+        if self.how == "npscalar":
+            return a
         if self.how == "int":
             if a.dtype != _np.float64:
                 return a
@@ -207,8 +210,30 @@ class _NpProxy:
         return _pool.arr(self._site(), r)
 
 
+def np_scalar(x):
+    """`npscalar` spelling: a Python bool / float handed over as the NumPy scalar a computation would have produced
+    (`np.all(v[0] == v[-1])`, `len_ / 2`, an element of an index array) -- the same number"""
+    if _pool is None or _pool.intmode is None or _pool.how != "npscalar":
+        return x
+    if isinstance(x, bool):
+        _pool.stats["respelled_npscalar"] = _pool.stats.get("respelled_npscalar", 0) + 1
+        return _np.bool_(x)
+    if isinstance(x, float):
+        _pool.stats["respelled_npscalar"] = _pool.stats.get("respelled_npscalar", 0) + 1
+        return _np.float64(x)
+    return x            # ints stay Python ints: counts (`num_points`, `num_samples`) are documented to be refused otherwise
+
+
+def _from_adapter(depth=2):
+    caller = sys._getframe(depth).f_code.co_filename
+    return "harness" in caller and "pwlib" not in caller
+
+
 def _recording(f):
     def w(*a, **k):
+        if _pool is not None and _pool.intmode is not None and _pool.how == "npscalar" and _from_adapter():
+            a = tuple(np_scalar(x) for x in a)
+            k = {n: np_scalar(x) for n, x in k.items()}
         r = f(*a, **k)
         if _pool is not None and _pool.phase == 0:
             _pool.note_result(r)
@@ -223,6 +248,9 @@ def _recording(f):
 
 def _recording_method(f):
     def w(*a, **k):
+        if _pool is not None and _pool.intmode is not None and _pool.how == "npscalar" and _from_adapter():
+            a = a[:1] + tuple(np_scalar(x) for x in a[1:])
+            k = {n: np_scalar(x) for n, x in k.items()}
         r = f(*a, **k)
         if _pool is not None and _pool.phase == 0:
             caller = sys._getframe(1).f_code.co_filename
@@ -260,7 +288,7 @@ class _ClassProxy:
         if _pool.intmode is not None:
             f = sys._getframe(1)
             site = (f.f_code.co_filename, f.f_lineno, f.f_lasti, "cp")
-            conv = lambda i, x: _pool.as_int(site + (i,), x) if isinstance(x, _np.ndarray) else x
+            conv = lambda i, x: _pool.as_int(site + (i,), x) if isinstance(x, _np.ndarray) else np_scalar(x)
             return cls(*[conv(i, x) for i, x in enumerate(a)], **{n: conv(n, x) for n, x in k.items()})
         try:
             key = (cls.__module__, cls.__name__, _argkey(a), _argkey(sorted(k.items())))
@@ -268,7 +296,12 @@ class _ClassProxy:
             return cls(*a, **k)
         # built from private copies: a class that stores its arguments by reference (Line, Box) must not follow later
         # in-place updates of the pooled buffers, or the object would no longer be the value its key says
-        priv = lambda x: _np.array(x) if isinstance(x, _np.ndarray) else x
+        # (Polyline and Plane copy what they are given -- that is part of what the pairs test: a constructor that kept a
+        # write-protected argument by reference would follow the caller's later updates of its buffer)
+        if cls.__name__ in BY_REFERENCE_CLASSES:
+            priv = lambda x: _np.array(x) if isinstance(x, _np.ndarray) else x
+        else:
+            priv = lambda x: x
         return _pool.obj(key, lambda: cls(*[priv(x) for x in a], **{n: priv(x) for n, x in k.items()}))
 
     def __getattr__(self, name):
@@ -283,6 +316,7 @@ def _pooled_class(cls):
 
 
 VALUE_CLASSES = ("Plane", "Polyline", "Line", "Box")
+BY_REFERENCE_CLASSES = ("Line", "Box")      # store their array arguments as they come (public, documented attributes)
 
 
 class AdapterWrite(Exception):
@@ -333,7 +367,7 @@ class scope:
         import types
         import polliwog
         for mname, m in list(sys.modules.items()):
-            if self.intmode is not None:
+            if self.intmode is not None and self.how != "npscalar":
                 break
             if m is None or not (mname == "polliwog" or mname.startswith("polliwog.")):
                 continue
@@ -346,7 +380,7 @@ class scope:
         for name in self.classes:
             c = polliwog.__dict__.get(name)
             if isinstance(c, type):
-                if self.intmode is None:
+                if self.intmode is None or self.how == "npscalar":
                     self._record_methods(c)
                 self.saved.append((polliwog.__dict__, name, c))
                 polliwog.__dict__[name] = _pooled_class(c)
@@ -389,8 +423,10 @@ def shcopy(x, keep_dtype=False, keep_layout=False):
     if _pool is None or not isinstance(r, _np.ndarray):
         return r
     if keep_dtype and _pool.intmode is not None and _pool.how == "int":
+        _pool.keep.append(r)
         return r
     if keep_layout and _pool.intmode is not None and _pool.how != "int":
-        return r            # results that depend on the summation order (a degenerate eigenspace) are not comparable
+        _pool.keep.append(r)    # results that depend on the summation order (a degenerate eigenspace, signs of vertices a few
+        return r                # ulps from a plane) are not comparable across memory layouts; constructors leave it alone too
     f = sys._getframe(1)
     return _pool.arr((f.f_code.co_filename, f.f_lineno, f.f_lasti, "cp"), r)
